@@ -67,13 +67,37 @@ type Line struct {
 	Path  string // destination path relative to the destination variable ("" = the variable itself)
 	Root  string // root identifier of the LHS
 	RHS   ast.Expr
-	Class string // for assign: direct | getter | stringer | typecast | conv | literal | slice-copy | slice-loop | slice-typecast | init | other
-	Src   string // for assign: rendered source expression (root variable included)
-	Conv  string // converter function name for Class conv
-	Err   bool   // assignment also assigns err
+	Text  string   // for assign: the rendered RHS
+	Class string   // for assign: direct | getter | stringer | typecast | conv | literal | call | slice-copy | slice-loop | slice-typecast | init | make | other
+	Base  string   // innermost value expression (selector / getter chain incl. the root variable), wrappers stripped
+	Wrap  []string // wrappers from the outside in: "conv:<func>", "typecast:<type>", "stringer", "addr"
+	Err   bool     // assignment also assigns err
 	Pos   token.Pos
 	Guard string // innermost enclosing `if X != nil` operand, if any
 }
+
+// Has reports whether the RHS has a wrapper with the given prefix.
+func (l Line) Has(prefix string) bool {
+	for _, w := range l.Wrap {
+		if strings.HasPrefix(w, prefix) {
+			return true
+		}
+	}
+	return false
+}
+
+// ConvFunc returns the outermost converter function or "".
+func (l Line) ConvFunc() string {
+	for _, w := range l.Wrap {
+		if strings.HasPrefix(w, "conv:") {
+			return w[5:]
+		}
+	}
+	return ""
+}
+
+// UsesGetter reports whether the base expression calls a method.
+func (l Line) UsesGetter() bool { return strings.Contains(l.Base, "()") }
 
 // GenFunc is one top-level function of the generated file.
 type GenFunc struct {
@@ -277,10 +301,11 @@ func (g *GenFile) analyzeFunc(f *GenFunc, dst string) {
 				l := Line{Kind: "assign", Root: root, Path: path, Err: withErr, Pos: st.Pos(), Guard: guard}
 				if len(st.Rhs) == 1 {
 					l.RHS = st.Rhs[0]
-					l.Class, l.Src, l.Conv = classify(info, st.Rhs[0])
+					l.Text = Render(st.Rhs[0])
+					l.Class, l.Base, l.Wrap = classify(info, st.Rhs[0])
 					if _, isIdx := st.Lhs[0].(*ast.IndexExpr); isIdx && loop != nil {
 						// dst.X[i] = e | T(e)
-						l.Src = Render(loop.X)
+						l.Base = Render(loop.X)
 						if l.Class == "typecast" {
 							l.Class = "slice-typecast"
 						} else {
@@ -293,7 +318,7 @@ func (g *GenFile) analyzeFunc(f *GenFunc, dst string) {
 				if ce, ok := st.X.(*ast.CallExpr); ok {
 					if id, ok := ce.Fun.(*ast.Ident); ok && id.Name == "copy" && len(ce.Args) == 2 {
 						if root, path, ok := exprPath(ce.Args[0]); ok && root == dst {
-							f.Lines = append(f.Lines, Line{Kind: "assign", Root: root, Path: path, Class: "slice-copy", Src: Render(ce.Args[1]), RHS: ce.Args[1], Pos: st.Pos(), Guard: guard})
+							f.Lines = append(f.Lines, Line{Kind: "assign", Root: root, Path: path, Class: "slice-copy", Base: Render(ce.Args[1]), Text: Render(ce), RHS: ce.Args[1], Pos: st.Pos(), Guard: guard})
 							continue
 						}
 					}
@@ -325,6 +350,23 @@ func (g *GenFile) analyzeFunc(f *GenFunc, dst string) {
 	}
 	walk(f.Decl.Body.List, "", nil)
 	sort.SliceStable(f.Lines, func(i, j int) bool { return f.Lines[i].Pos < f.Lines[j].Pos })
+	// fold `x = make(..)` into the copy / element loop that follows it on the same path
+	var folded []Line
+	for i := 0; i < len(f.Lines); i++ {
+		l := f.Lines[i]
+		if l.Kind == "assign" && l.Class == "make" {
+			j := i + 1
+			if j < len(f.Lines) && f.Lines[j].Kind == "assign" && f.Lines[j].Path == l.Path && strings.HasPrefix(f.Lines[j].Class, "slice-") {
+				nl := f.Lines[j]
+				nl.Wrap = append([]string{"fresh:" + l.Text}, nl.Wrap...)
+				folded = append(folded, nl)
+				i = j
+				continue
+			}
+		}
+		folded = append(folded, l)
+	}
+	f.Lines = folded
 	sort.SliceStable(f.Calls, func(i, j int) bool { return f.Calls[i].Pos < f.Calls[j].Pos })
 }
 
@@ -343,62 +385,92 @@ func callOf(ce *ast.CallExpr, withErr bool) Call {
 	return c
 }
 
-// classify determines the class of an assignment RHS.
-func classify(info *types.Info, e ast.Expr) (class, src, conv string) {
+// classify peels conversions, String() calls, single-argument function calls
+// and & off an assignment RHS and reports the outermost class, the innermost
+// base expression and the wrappers in between.
+func classify(info *types.Info, e ast.Expr) (class, base string, wrap []string) {
 	switch v := e.(type) {
 	case *ast.ParenExpr:
 		return classify(info, v.X)
 	case *ast.CallExpr:
-		// conversion?
-		if tv, ok := info.Types[v.Fun]; ok && tv.IsType() {
-			if len(v.Args) == 1 {
-				_, inner, _ := classify(info, v.Args[0])
-				return "typecast", inner, ""
-			}
-			return "typecast", Render(e), ""
+		if tv, ok := info.Types[v.Fun]; ok && tv.IsType() && len(v.Args) == 1 {
+			_, b, w := classify(info, v.Args[0])
+			return "typecast", b, append([]string{"typecast:" + Render(v.Fun)}, w...)
 		}
 		if id, ok := v.Fun.(*ast.Ident); ok && id.Name == "make" {
-			return "make", Render(e), ""
+			return "make", Render(e), nil
 		}
 		if sel, ok := v.Fun.(*ast.SelectorExpr); ok && len(v.Args) == 0 {
-			// method call with zero args: getter or stringer, unless X is a package
 			if _, isPkg := pkgIdent(info, sel.X); !isPkg {
 				if sel.Sel.Name == "String" {
-					if s := info.Selections[sel]; s != nil {
-						return "stringer", Render(sel.X), ""
-					}
+					_, b, w := classify(info, sel.X)
+					return "stringer", b, append([]string{"stringer"}, w...)
 				}
-				if s := info.Selections[sel]; s != nil && s.Kind() == types.MethodVal {
-					return "getter", Render(e), ""
+				// zero-argument method call: part of a getter chain
+				if isChain(info, v) {
+					return "getter", Render(e), nil
 				}
-				// untyped fall-back: treat as getter
-				return "getter", Render(e), ""
 			}
 		}
-		// package-level function call: converter (or literal call; the caller disambiguates)
 		if len(v.Args) == 1 {
-			arg := v.Args[0]
-			if u, ok := arg.(*ast.UnaryExpr); ok && u.Op == token.AND {
-				arg = u.X
-			}
-			return "conv", Render(arg), Render(v.Fun)
+			_, b, w := classify(info, v.Args[0])
+			return "conv", b, append([]string{"conv:" + Render(v.Fun)}, w...)
 		}
-		return "call", Render(e), Render(v.Fun)
+		return "call", Render(e), nil
 	case *ast.UnaryExpr:
 		if v.Op == token.AND {
 			if _, ok := v.X.(*ast.CompositeLit); ok {
-				return "init", Render(e), ""
+				return "init", Render(e), nil
 			}
+			c, b, w := classify(info, v.X)
+			return c, b, append([]string{"addr"}, w...)
 		}
-		return "other", Render(e), ""
+		return "other", Render(e), nil
+	case *ast.StarExpr:
+		c, b, w := classify(info, v.X)
+		return c, b, append([]string{"deref"}, w...)
 	case *ast.CompositeLit:
-		return "init", Render(e), ""
+		return "init", Render(e), nil
 	case *ast.BasicLit:
-		return "literal", v.Value, ""
-	case *ast.Ident, *ast.SelectorExpr, *ast.StarExpr:
-		return "direct", Render(e), ""
+		return "literal", v.Value, nil
+	case *ast.Ident, *ast.SelectorExpr:
+		if isChain(info, e) {
+			if strings.Contains(Render(e), "()") {
+				return "getter", Render(e), nil
+			}
+			return "direct", Render(e), nil
+		}
+		return "other", Render(e), nil
 	}
-	return "other", Render(e), ""
+	return "other", Render(e), nil
+}
+
+// isChain reports whether e is ident{.field|.method()}* rooted at a variable.
+func isChain(info *types.Info, e ast.Expr) bool {
+	switch v := e.(type) {
+	case *ast.Ident:
+		if _, isPkg := pkgIdent(info, v); isPkg {
+			return false
+		}
+		return true
+	case *ast.SelectorExpr:
+		if _, isPkg := pkgIdent(info, v.X); isPkg {
+			return false
+		}
+		return isChain(info, v.X)
+	case *ast.CallExpr:
+		if len(v.Args) != 0 {
+			return false
+		}
+		sel, ok := v.Fun.(*ast.SelectorExpr)
+		if !ok {
+			return false
+		}
+		return isChain(info, sel.X)
+	case *ast.ParenExpr:
+		return isChain(info, v.X)
+	}
+	return false
 }
 
 func pkgIdent(info *types.Info, e ast.Expr) (*types.PkgName, bool) {
